@@ -259,6 +259,10 @@ def check(ctx):
         # same address, same element count, for every N including 0 (C10.X)
         for f in ("from_chunks", "from_chunks_mut", "into_chunks", "into_chunks_mut"):
             c10.check_transmute(ctx, cfg, c10.K + f)
+        if not cfg.startswith("F0"):
+            # the one operation that writes through raw views of the storage: zeroize touches the N elements and nothing beyond them (C19.Z)
+            from . import c19
+            c19.check_zeroize(ctx, cfg)
     run_lattice(ctx, ctx.builds["F0"], ctx.tier, "F0")
     if ctx.tier == "thorough":
         from .. import run as R
